@@ -1075,6 +1075,36 @@ def _str_find(M, fr, n, a):
     for i in range(len(s.b) - len(p) + 1):
         if M.branch(_match_at(s, i, p)): return some(i)
     return none()
+@reg(r'^core::str::<impl str>::rfind$')
+def _str_rfind(M, fr, n, a):
+    s = as_str(M, a[0]); pred = _char_pred(M, fr, a[1])
+    if pred is None:
+        p = _pat_bytes(M, a[1])
+        for i in range(len(s.b) - len(p), -1, -1):
+            if M.branch(_match_at(s, i, p)): return some(i)
+        return none()
+    end = len(s.b)
+    while end > 0:
+        st, c = _char_at_end(M, s, end)
+        if M.branch(pred(c)): return some(st)
+        end = st
+    return none()
+@reg(r'^core::str::<impl str>::(matches|match_indices|rmatches)$')
+def _str_matches(M, fr, n, a):
+    s = as_str(M, a[0]); pred = _char_pred(M, fr, a[1]); op = n.rsplit('::', 1)[1]
+    out = []; i = 0
+    if pred is None:
+        p = _pat_bytes(M, a[1])
+        while p and i + len(p) <= len(s.b):
+            if M.branch(_match_at(s, i, p)): out.append((i, Ref(Cell(Str(s.b[i:i + len(p)]))))); i += len(p)
+            else: i += 1
+    else:
+        while i < len(s.b):
+            it = Agg('Chars', [Str(s.b[i:]), 0]); okk, c = chars_next(M, fr, it); k = it.f[1]
+            if M.branch(pred(c)): out.append((i, Ref(Cell(Str(s.b[i:i + k])))))
+            i += k
+    if op == 'rmatches': out.reverse()
+    return IterV([Agg('()', [i_, r]) for i_, r in out] if op == 'match_indices' else [r for _, r in out])
 @reg(r'^core::str::<impl str>::contains$')
 def _str_contains(M, fr, n, a):
     s = as_str(M, a[0]); p = _pat_bytes(M, a[1])
